@@ -36,10 +36,11 @@ def scan_fns(text):
     m = rs.mask(text)
     res = []
 
-    def walk(lo, hi, prefix):
+    def walk(lo, hi, prefix, sprefix=None):
+        sprefix = prefix if sprefix is None else sprefix
         for it in rs.items(text, m, lo, hi):
             if it.kind == 'fn':
-                res.append({'name': it.name, 'qual': prefix + it.name, 'start': it.start, 'end': it.end,
+                res.append({'name': it.name, 'qual': prefix + it.name, 'qual_short': sprefix + it.name, 'start': it.start, 'end': it.end,
                             'header': it.header, 'attrs': it.attrs, 'body_open': it.body_open})
             elif it.kind in ('impl', 'mod', 'trait') and it.body_open >= 0:
                 nm = it.name or '?'
@@ -48,9 +49,10 @@ def scan_fns(text):
                     # same spelling as gen.py's function ids: generics kept, whitespace removed, path prefix dropped
                     tf = re.sub(r'^(\w+::)+', '', tf)
                     nm = '<%s as %s>' % (it.name, tf if '<' in tf else it.trait)
-                walk(it.body_open + 1, it.end - 1, prefix + nm + '::')
+                snm = ('<%s as %s>' % (it.name, it.trait)) if (it.kind == 'impl' and it.trait) else nm
+                walk(it.body_open + 1, it.end - 1, prefix + nm + '::', sprefix + snm + '::')
             elif it.kind == 'other' and it.body_open >= 0 and re.match(r'\s*verus\s*!', it.header):
-                walk(it.body_open + 1, it.end - 1, prefix)
+                walk(it.body_open + 1, it.end - 1, prefix, sprefix)
             elif it.kind == 'other' and it.body_open >= 0:
                 pass
     walk(0, len(text), '')
@@ -399,6 +401,8 @@ def _digest_canary(r, cans, ctexts, layers, clemmas):
                 host = next((f for f in fns if f['start'] <= off < f['end']), None)
                 if host and host['qual'] in inlayer:
                     failing.add(host['qual'])
+                elif host and host['qual_short'] in inlayer:
+                    failing.add(host['qual_short'])
     alive = sorted(x for x in expected if x not in failing)
     r.canary = {'expected_to_fail': len(expected), 'failed_as_expected': len(expected) - len(alive), 'vacuous': alive,
                 'layers': len(layers), 'wall_s': round(wall, 2)}
